@@ -241,7 +241,35 @@ PROPS["C03"] = {
                     "file operations are atomic at this level (step-level disk model: C04)"],
 }
 
+PROPS["C04"] = {
+    "modules": ["SlogModel.Props.C04"],
+    "components": [("disk", 400, 4000)],
+    "rule": "one case = one victim process (the harness binary re-executed) running the real hybridbuffer and spilling 1-6 chunks, "
+            "one write of which suffers a fault: RLIMIT_FSIZE at byte offset k (short write then EFBIG), SIGKILL at a kill point "
+            "of util.WriteFileAt (after open / first write / close / rename), or both (killed inside the write at offset k); "
+            "grid = sizes {1,2,7,4095,4096,4097 (+1 MiB thorough)} x positions first/middle/last x offsets {1, page boundaries, "
+            "n-1, n, n+5} x every kill point, plus random sizes; the directory left behind is compared byte for byte with "
+            "Disk.victim, bad files are planted (zero-length, directory under a chunk name, stale temporary), the real buffer is "
+            "restarted on the directory with a strict consumer and what it forwards / drops / leaves is compared with the model; "
+            "distinct by ops; all non-trivial",
+    "level_text": "Theorems on the step-level disk model: C04_write_all_or_nothing (any limit: complete under the final name and "
+                  "success, or failure and the final name untouched; temporary name gone; nothing else touched), "
+                  "C04_crash_no_torn_final (kill at any step or inside the write at any offset), C04_no_torn_chunk_forwarded (every "
+                  "chunk list, position, fault: whatever the next start forwards from the directory is byte-identical to a "
+                  "produced chunk, never empty), C04_saved_implies_complete, C04_bad_file_isolated, C04_temp_never_matches, and "
+                  "legacy_* witnesses that the code before the repair violated them. Tie: directory contents after real faults in "
+                  "a victim process and the forwarded set after a real restart, compared with the model; six regenerated facts "
+                  "(system-call sequence of WriteFileAt, write loop, temporary suffix, matchers, saved-after-write order, "
+                  "zero-length check).",
+    "level_note": "Trusted: Lean kernel + 3 standard axioms; the kernel's file semantics as modelled (openat O_TRUNC, write "
+                  "transfers a prefix, rename is atomic, a killed process keeps completed calls); ReadFileAt's single read returns "
+                  "the whole file (modelled, not verified). PARTIAL: power loss / unsynced page cache is out of scope (the "
+                  "property speaks of process kill and I/O errors).",
+    "partial": "power-loss semantics out of scope; ReadFileAt short reads assumed away",
+    "assumptions": ["renameat within one directory is atomic", "a single read(2) on a regular chunk file returns the whole file"],
+}
+
 NOT_APPLICABLE = {k: "check not built yet in this round (planned in DESIGN.md section 6); no claim is made" for k in
                   ["C%02d" % i for i in range(1, 20)]}
 
-HOOK_COMMITS = ["b1a24e0", "ad52c8e"]
+HOOK_COMMITS = ["b1a24e0", "ad52c8e", "4fe92da"]
